@@ -27,7 +27,7 @@ What each definition mirrors (line numbers of `/repo` HEAD):
 All six repairs are committed in /repo, which therefore is `Cfg.repaired`.  The headline theorems of Properties/C09.lean are about it, the `_v`
 theorems about `Cfg.rv v` for both values of `v`; the regression witnesses are about `Cfg.without5` and `Cfg.head`.
 
-Not modelled here: listeners that re-enter (Model/ConnL.lean adds those that send / sendToDPID / disconnect; halting an event is nowhere), the handshake
+Not modelled here: listeners that re-enter (Model/ConnL.lean adds those that send / sendToDPID / disconnect; Model/ConnH.lean those that halt an event or unsubscribe), the handshake
 features-reply handler's version check (dead behind `read()`'s own version check), a custom
 OpenFlowConnectionArbiter (the default one always answers `core.openflow`), message types other than the nine of `Msg`,
 multi-part stats replies (C17), framing (C02), xid wrap-around after 2^31-1 messages, the DeferredSender (stubbed: C20).
